@@ -232,4 +232,45 @@ except RecursionError as e:
 if "skip" not in rd and (rd.get("err") is not None or rd.get("got") is None or rd.get("got") != rd.get("want")):
     leg.violation("stitched-stack-longer-than-the-recursion-limit", f"extract_since(None) from a shallow greenlet whose parent is parked 400 deep, recursion limit lowered: "
                   f"{len(rd.get('got') or [])} frames, expected {len(rd.get('want') or [])}; error={rd.get('err')!r} raised={rd.get('raised')!r}")
+
+# an ancestor greenlet parked INSIDE a generator / coroutine frame: the same suspended frame object is re-driven by different
+# callers between two extractions made from the child greenlet, so its f_back (and the outer part of the true stack) changes
+# while greenlet.gr_frame stays the same object (added after seed C04-ancestor-frames-cached-weakly)
+def redriven_scenario():
+    seen = []
+    def asker():
+        while True:
+            me = sys._getframe(0)
+            T = truth(me)
+            st = extract_since(None); su = extract_until(me); sl = extract(StackSlice(outer=T[0], inner=me, limit=3))
+            seen.append(([f.f_code.co_name for f in T], T, [x.pyframe for x in st.frames], [x.pyframe for x in su.frames],
+                         [x.pyframe for x in sl.frames], (st.error, su.error, sl.error)))
+            greenlet.getcurrent().parent.switch()
+    A = greenlet.greenlet(asker)
+    def gen():
+        while True:
+            A.switch(); yield
+    class Susp:
+        def __await__(self): yield
+    A2 = greenlet.greenlet(asker)
+    async def inner_c():
+        while True:
+            A2.switch(); await Susp()
+    async def outer_c(): await inner_c()
+    def shallow(step): step()
+    def deep(step):
+        def helper(): step()
+        helper()
+    g = gen(); c = outer_c()
+    for drv in (shallow, shallow, deep, shallow):
+        drv(lambda: next(g))
+    for drv in (shallow, deep, shallow):
+        drv(lambda: c.send(None))
+    return seen
+for n_, (names, T, got_since, got_until, got_lim, errs) in enumerate(redriven_scenario()):
+    key = ("ancestor-parked-in-a-redriven-generator-or-coroutine", n_)
+    leg.case(key, True)
+    if got_since != T or got_until != T or got_lim != T[-3:] or any(e is not None for e in errs):
+        leg.violation(key, f"extraction #{n_} from a child greenlet whose ancestor is parked in a generator/coroutine frame re-driven by another caller: true stack {names}, "
+                           f"extract_since(None) gave {[f.f_code.co_name for f in got_since]}, extract_until {[f.f_code.co_name for f in got_until]}, errors {errs!r}")
 leg.finish(exhaustive=True)
